@@ -63,9 +63,21 @@ theorem restoreRows_eq (E : EqTests K) (hE : LawfulEq E) (cfg : RouteCfg) (dflt 
     (h : rowsGuard E cfg dflt t = true) : restoreRows cfg dflt t = t := by
   unfold restoreRows
   cases hs : cfg.regSame with
-  | true => simp
+  | true =>
+    simp only [rowsGuard, hs, if_true] at h
+    simp only [if_true]
+    have : ∀ p ∈ t, (fun p : String × PRow K => (p.1, (⟨p.2.e, rowCanonEff cfg dflt p⟩ : PRow K))) p = p := by
+      intro p hp
+      have := List.all_eq_true.mp h p hp
+      simp only [beq_iff_eq] at this
+      obtain ⟨k, e, c⟩ := p
+      simp only at this
+      simp [this]
+    calc t.map (fun p => (p.1, (⟨p.2.e, rowCanonEff cfg dflt p⟩ : PRow K))) = t.map id :=
+          List.map_congr_left this
+      _ = t := List.map_id t
   | false =>
-    simp only [rowsGuard, hs, Bool.false_or, Bool.and_eq_true] at h
+    simp only [rowsGuard, hs, Bool.false_eq_true, if_false, Bool.and_eq_true] at h
     obtain ⟨hall, hrem⟩ := h
     have h1 : t.filterMap (restoreRow cfg dflt) = t := by
       apply filterMap_eq_self
@@ -152,7 +164,7 @@ theorem restoreRows_erase (cfg : RouteCfg) (dflt : Lut K) (t : PLut K) :
   have hr : resurrected (keepIdentity cfg) dflt t = resurrected cfg dflt t := rfl
   rw [hs, hr]
   cases cfg.regSame with
-  | true => simp
+  | true => simp [eraseRow, List.map_map, Function.comp_def]
   | false =>
     simp only [Bool.false_eq_true, if_false, List.map_append]
     rw [filterMap_map_congr _ _ eraseRow t (restoreRow_erase cfg dflt)]
